@@ -146,7 +146,10 @@ def boundarySegs : List WalSegment :=
     mkSeg [] [plainRec 8144 10 0x00 700, plainRec 100 10 0x10 700, plainRec 40 1 0x00 700],
     mkSeg [] [plainRec 8136 10 0x00 700, plainRec 100 10 0x10 700, plainRec 40 1 0x00 700],
     mkSeg [] [plainRec 8100 10 0x00 700, multi, plainRec 40 1 0x00 701],
-    mkSeg [] [{ plainRec 40 4 0x00 700 with xid := 9 }, plainRec 40 4 0x10 9] ]
+    mkSeg [] [{ plainRec 40 4 0x00 700 with xid := 9 }, plainRec 40 4 0x10 9],
+    -- the same two classes with a compact image (zero continuation data in front): witnesses of the known findings
+    mkSeg (zeros 8136) [plainRec 40 10 0x10 700, plainRec 40 1 0x00 700],
+    mkSeg (zeros 8100) [heapIns, plainRec 40 1 0x00 700] ]
 
 def pagesTag (n : Nat) : String :=
   if n ≤ 1 then "pages=1" else if n ≤ 2 then "pages=2" else if n ≤ 4 then "pages=3-4" else if n ≤ 8 then "pages=5-8"
